@@ -122,6 +122,11 @@ def lem_S_zero(K, V, r, n):
     return z3.Implies(z3.And(n >= 0, z3.ForAll([j], z3.Implies(z3.And(0 <= j, j < n), term_S(K, V, r, j) == 0))), S(K, V, r, n) == 0)
 
 
+def lem_Hs_nonneg(E, k, n):
+    j = z3.Int(H.fresh_name("lhn_j"))
+    return z3.Implies(z3.And(n >= 0, z3.ForAll([j], z3.Implies(z3.And(0 <= j, j < n), e_qty(z3.Select(E, j)) >= 0))), Hs(E, k, n) >= 0)
+
+
 # ---- their proofs: induction steps as obligations ----------------------------------------------------
 def induction_obligations():
     K = z3.Const("K", z3.ArraySort(I, RS))
@@ -151,6 +156,8 @@ def induction_obligations():
     out.append(("sum.S.zero.step", axs + [n >= 0, lem_S_zero(K, V, r, n)], z3.substitute(lem_S_zero(K, V, r, m), (m, n + 1))))
     # Hs frame
     axh = ax_Hs(E, k) + ax_Hs(E2, k)
+    out.append(("sum.H.nonneg.base", axh, z3.substitute(lem_Hs_nonneg(E, k, n), (n, z3.IntVal(0)))))
+    out.append(("sum.H.nonneg.step", axh + [n >= 0, lem_Hs_nonneg(E, k, n)], z3.substitute(lem_Hs_nonneg(E, k, m), (m, n + 1))))
     out.append(("sum.H.frame.base", axh, z3.substitute(lem_Hs_frame(E, E2, k, n), (n, z3.IntVal(0)))))
     out.append(("sum.H.frame.step", axh + [n >= 0, lem_Hs_frame(E, E2, k, n)], z3.substitute(lem_Hs_frame(E, E2, k, m), (m, n + 1))))
     return out
